@@ -1,4 +1,5 @@
 """C13 — stream-attached actors handle every item in order and end with the stream."""
+import re
 import core, nfa, loops, graph
 from mir import Body, sinks
 from props.c15 import roots
@@ -79,7 +80,7 @@ def check_cfg(ctx, fx, cfg):
                 c = t.get("callee") or ""
                 if c.endswith("poll_unpin") or c.endswith("Future::poll"):
                     arm_polls.append(t["argtys"][0])
-        ok = len(arm_polls) == 2 and all(a.startswith("&mut futures_util::future::future::fuse::Fuse<futures_util::stream::stream::next::Next<") for a in arm_polls)
+        ok = len(arm_polls) == 2 and all(re.match(r"^&mut (core::pin::Pin<&mut )?futures_util::future::future::fuse::Fuse<futures_util::stream::stream::next::Next<", a) for a in arm_polls)
         ctx.require(ok, "R13.3", inst + ":arms-race-next-only", "the select must race exactly the two next() futures: %s" % [a[:70] for a in arm_polls], fn=f["def"], site=f["loc"], detail=[a[:90] for a in arm_polls])
         # R13.4
         shuffles = any((t.get("callee") or "").endswith("random::shuffle") for g in nested for _, t in ctx.body(fx, g).normal_calls())
